@@ -70,6 +70,12 @@ theorem fMgOH2_weighted : fMgOH2.Weighted (elementsOf T0) := by
   · exact ⟨16, by simp [elementsOf, atomicWeight, T0], by norm_num⟩
   · exact ⟨1, by simp [elementsOf, atomicWeight, T0], by norm_num⟩
 
+/-- `(H)` -/
+def fParenH : Formula := .group (.atom ['H'] .one .nil) .one .nil
+
+theorem fParenH_wf : fParenH.WF (elementsOf T0) :=
+  ⟨by simp [fParenH], ⟨⟨symH, trivial, trivial⟩, trivial, trivial⟩, by simp, ⟨knH, trivial, trivial⟩, trivial, trivial⟩
+
 /-- the model run on the witness `Rf` -/
 theorem rf_atoms : parseSimple T0 3 ['R', 'f'] = .ok ([(104, 1)], 0) := by rfl
 
